@@ -2,12 +2,14 @@ import CanopenModel.Periodic
 /-
 Driver for C17.  One line = one whole history:
 
-  C17 m=<0|1> sc=<d|cob> {L=<id>,<dflt|n>} {R=<id>} {P=<node>,<key>,<cob|n>,<nvars>} -- op op …
+  C17 m=<0|1> [t=<0|1>] sc=<d|cob> {L=<id>,<dflt|n>} {R=<id>} {P=<node>,<key>,<cob|n>,<nvars>} -- op op …
 
 ops: ss:<µs|n> sx sp:<µs|n> ps:<n>,<k>,<µs|n> px:<n>,<k> pp:<n>,<k>,<µs|n> pr:<n>,<k>,<dt µs>,<hex>
      pu:<n>,<k>,<hex> pv:<n>,<k>,<i>,<v> pa:<n>
      hs:<n>,<int ms> hx:<n> hu:<n> hw:<n>,<v> hd:<n>,<v> ow:<n>,<idx>,<hex> cm:<n>,<code>
-     st:<n>,<NAME with _ for blanks> nc:<hex> gs:<n>,<µs> gx:<n> dc
+     st:<n>,<NAME with _ for blanks> nc:<hex> gs:<n>,<µs> gx:<n> dc wn we xn xe cn
+     (`t=1`: the harness's bus stops its own cyclic tasks at `shutdown()`; what is live on the bus is
+     then compared by the oracle only, the model describes the bus that leaves them alone)
 
 output: for every op `ok|err;<live tasks>;<api>` joined by `|`, where a live task is
 `<creation index>:<can id>[x]/<hex>/<period µs>/<remote 0|1>` and api is
@@ -27,6 +29,7 @@ def optNat (s : String) : Option (Option Nat) :=
 def parseCfgTok (su : Setup) (tok : String) : Option Setup :=
   match tok.splitOn "=" with
   | ["m", v] => (parseBool v).map fun b => { su with cfg := { su.cfg with modify := b } }
+  | ["t", v] => (parseBool v).map fun _ => su
   | ["sc", v] =>
     if v = "d" then some { su with cfg := { su.cfg with syncCob := Gen.PeriodicTables.SYNC_COB_ID } }
     else v.toNat?.map fun n => { su with cfg := { su.cfg with syncCob := n } }
@@ -68,6 +71,11 @@ def parseOp (tok : String) : Option Op :=
   match tok.splitOn ":" with
   | ["sx"] => some .syncStop
   | ["dc"] => some .disconnect
+  | ["wn"] => some (.exitWith .withNormal)
+  | ["we"] => some (.exitWith .withException)
+  | ["xn"] => some (.exitWith .exitNormal)
+  | ["xe"] => some (.exitWith .exitException)
+  | ["cn"] => some .connect
   | ["ss", a] => (optNat a).map .syncStart
   | ["sp", a] => (optNat a).map .syncSetPeriod
   | ["nc", a] => (parseHex a).map .nmtFrame
